@@ -106,6 +106,32 @@ Theorem C20_payload_change_is_error :
 Proof. exact payload_change_is_error. Qed.
 Print Assumptions C20_payload_change_is_error.
 
+(* (4'') the checked read has no memory: its answer depends only on the file length, the bytes in the frame's
+        window and the frame's TOC entry -- never on which frames were read (and found clean) through the same
+        handle before.  Two frames with the same checksum at different offsets are therefore hashed separately,
+        and any two read schedules give every frame the same answer. *)
+Theorem C20_read_depends_on_window :
+  forall (H : bytes -> bytes) ctx (file file' : bytes) fr,
+    length file' = length file ->
+    slice file' (N.to_nat (f_off fr)) (N.to_nat (f_len fr)) = slice file (N.to_nat (f_off fr)) (N.to_nat (f_len fr)) ->
+    read_frame_payload_bytes H ctx file' fr = read_frame_payload_bytes H ctx file fr.
+Proof. exact read_depends_on_window. Qed.
+Print Assumptions C20_read_depends_on_window.
+
+Theorem C20_read_history_independent :
+  forall (H : bytes -> bytes) ctx file h1 h2 fr,
+    snd (handle_read H ctx file h1 fr) = snd (handle_read H ctx file h2 fr) /\
+    snd (handle_read H ctx file h1 fr) = read_frame_payload_bytes H ctx file fr.
+Proof. exact handle_read_history_independent. Qed.
+Print Assumptions C20_read_history_independent.
+
+Theorem C20_read_schedules_agree :
+  forall (H : bytes -> bytes) ctx file hist1 hist2 s1 s2 i j fr,
+    nth_error s1 i = Some fr -> nth_error s2 j = Some fr ->
+    nth_error (run_reads H ctx file hist1 s1) i = nth_error (run_reads H ctx file hist2 s2) j.
+Proof. exact run_reads_answer_of_frame. Qed.
+Print Assumptions C20_read_schedules_agree.
+
 (* (5) verify(deep) = Passed on a file implies that every ACTIVE frame with a non-empty payload reads there
        exactly as on the clean file (FramePayloadChecksums): "verify Passed but a payload read differs" is
        impossible for active frames. *)
@@ -277,6 +303,17 @@ Definition s_file : bytes := s_pre ++ s_toc ++ footer_encode s_footer.
 (* the clean file passes read_toc; a flipped TOC byte, a flipped hash byte and a flipped length byte do not;
    the frame read accepts the clean sample file; an inactive frame's changed payload fails on read but is
    outside verify's loop (verify Passed, by (5') with the payload range outside the layout) *)
+(* two copies of one payload (same checksum) at offsets 48 and 52; the second copy is damaged: it is rejected
+   whether or not the clean first copy was read before it *)
+Definition dup_file : bytes := repeat 0 48 ++ [255; 254; 7; 8] ++ [255; 254; 7; 9].
+Definition dup_a : frame := mkFrame 48 4 false (Some 4) (toyH [255; 254; 7; 8]) true.
+Definition dup_b : frame := mkFrame 52 4 false (Some 4) (toyH [255; 254; 7; 8]) true.
+Example C20_duplicate_nonvacuous :
+  run_reads toyH (0, 48, 56) dup_file [] [dup_a; dup_b; dup_b; dup_a] = [Ok [255; 254; 7; 8]; Err E_FR_SUM; Err E_FR_SUM; Ok [255; 254; 7; 8]] /\
+  run_reads toyH (0, 48, 56) dup_file [] [dup_b; dup_a] = [Err E_FR_SUM; Ok [255; 254; 7; 8]] /\
+  verify_overall true (vstate_of toyH yes yes dup_file (mkLayout 0 48 0 None None None (0, 48, 56) [dup_a; dup_b])) = Failed.
+Proof. repeat split; vm_compute; reflexivity. Qed.
+
 Definition inactive_frame : frame := mkFrame 48 4 false (Some 4) (toyH [255; 254; 7; 8]) false.
 Definition inactive_layout : layout := mkLayout 0 48 0 (Some (52, 28, 1)) None None sample_ctx [inactive_frame].
 Example C20_nonvacuous :
